@@ -282,7 +282,7 @@ one_desc(uint64_t idx, uint64_t k, vh_rng *rg)
     snprintf(ctx, sizeof ctx, "%stable{%.200s}", reinit ? "re-initialised " : "", rt_describe(&d));
     if (!reinit)
         expect_uninitialised("when=before-init", ctx);
-    struct viol v[40];
+    struct viol v[8 + 4 * RT_MAXREGS];
     int nv = collect(&d, v);
     RegisterInit ri = register_init(&inst.t);
     if (nv == 0) {
